@@ -76,18 +76,33 @@ class Conv:
                 return ('(dec %s)' % v, 'reselem')              # TryFrom<Encoding | [u8; 32]> for Element (another form)
             if name == 'into' and t == 'arr' and not e[3]:
                 return (v, 'enc')
-            if name == 'map_err' and t == 'tryarr' and len(e[3]) == 1 and e[3][0][0] == 'closure':
-                err, te = self.ev(e[3][0][1], env)
+            if name == 'map_err' and t == 'tryarr' and len(e[3]) == 1 and e[3][0][0] in ('closure', 'closure2'):
+                err, te = self.ev(e[3][0][-1], env)
                 if te == 'err':
                     return ((v, err), 'tryarr_e')
             if name in ('clone', 'borrow') and not e[3]:
                 return (v, t)
+            if name == 'and_then' and t == 'tryenc_slice' and len(e[3]) == 1 and e[3][0][0] == 'closure2' and len(e[3][0][1]) == 1:
+                inner, ti = self.ev(e[3][0][2], dict(env, **{e[3][0][1][0]: (v, 'enc')}))
+                if ti == 'reselem':
+                    return ('(if %s.length == 32 then %s else .error lenErr)' % (v, inner), 'reselem')
             raise Untranslatable('method .%s on %s' % (name, t))
         if k == 'call' and e[1][0] == 'path':
             f = e[1][1]
             av = [self.ev(x, env) for x in e[2]]
             if f == 'Encoding' and len(av) == 1 and av[0][1] == 'arr':
                 return (av[0][0], 'enc')
+            # another form of the list (assume-guarantee): `Encoding::from`, `Element::try_from`, `Encoding::try_from`
+            if f == 'Encoding::from' and len(av) == 1 and av[0][1] == 'elem':
+                return ('(enc %s)' % av[0][0], 'enc')
+            if f == 'Encoding::from' and len(av) == 1 and av[0][1] == 'arr':
+                return (av[0][0], 'enc')
+            if f == 'Element::try_from' and len(av) == 1 and av[0][1] in ('enc', 'arr'):
+                return ('(dec %s)' % av[0][0], 'reselem')
+            if f == 'Element::try_from' and len(av) == 1 and av[0][1] == 'slice':
+                return ('(if %s.length == 32 then dec %s else .error lenErr)' % (av[0][0], av[0][0]), 'reselem')
+            if f == 'Encoding::try_from' and len(av) == 1 and av[0][1] == 'slice':
+                return (av[0][0], 'tryenc_slice')
             if f == 'Ok' and len(av) == 1:
                 return av[0] if av[0][1].startswith('res') else ('(.ok %s)' % av[0][0], 'res' + av[0][1])
             if f == 'Err' and len(av) == 1 and av[0][1] == 'err':
@@ -106,6 +121,11 @@ class Conv:
             raise Untranslatable('empty block')
         s, rest = stmts[0], stmts[1:]
         k = s[0]
+        if k == 'let' and s[1][0] == 'ptstruct' and s[2] is not None:
+            v, t = self.ev(s[2], env)
+            if t != 'enc':
+                raise Untranslatable('Encoding(..) pattern on %s' % t)
+            return self.run(rest, dict(env, **{s[1][2]: (v, 'arr')}))
         if k == 'let' and s[1][0] == 'pname' and s[2] is not None:
             if s[2][0] == 'arrayrep':
                 env = dict(env)
@@ -136,7 +156,31 @@ class Conv:
 
 
 class ConvParser(Parser):
+    def pattern(self):
+        # `Encoding(bytes)`
+        if self.peek()[0] == 'id' and self.peek()[1] == 'Encoding' and self.at('(', 1) and self.peek(2)[0] == 'id' and self.at(')', 3):
+            self.eat(); self.eat('(')
+            inner = self.eat()[1]
+            self.eat(')')
+            return ('ptstruct', 'Encoding', inner)
+        return super().pattern()
+
     def primary(self, nostruct):
+        if self.at('|') and not self.at('|', 1):
+            self.eat('|')
+            params = []
+            while not self.at('|'):
+                t = self.eat()
+                if t[0] == 'id' and t[1] != 'mut':
+                    params.append(t[1])
+                elif t[1] == ':':
+                    while not self.at(',') and not self.at('|'):
+                        self.eat()
+            self.eat('|')
+            return ('closure2', params, self.expr())
+        return self.primary0(nostruct)
+
+    def primary0(self, nostruct):
         # `[0u8; 32]`
         if self.at('[') and self.peek(1)[0] == 'num' and self.at(';', 2):
             self.eat('['); self.eat(); self.eat(';'); self.eat(); self.eat(']')
